@@ -99,7 +99,7 @@ def build_jobs(quick, rnd):
     # ---------------- Newton reciprocal: documented domain (0, 2^(cap-1)) exhaustively, every iteration count
     for cap in ((6, 8, 10) if quick else (4, 6, 8, 10, 12)):
         for k in range(0, 7 if quick else 8):
-            for st in ("u64", "i64"):
+            for st in (("u64", "i64") if not quick or k in (3, 5) else ("u64",)):
                 add(op="newton", st=st, p=cap, k=k, xr=[1, (1 << (cap - 1)) - 1])
     if quick:
         add(op="newton", st="u64", p=12, k=5, xr=[1, (1 << 11) - 1])
@@ -107,7 +107,7 @@ def build_jobs(quick, rnd):
         xs = spread(1, (1 << (cap - 1)) - 1, [1 << i for i in range(cap)] + [3 << i for i in range(cap - 2)], n, rnd)
         add(op="newton", st="u64", p=cap, k=k, x=xs)
         add(op="newton", st="i64", p=cap, k=k - 2, x=xs[:: 3 if quick else 1])
-    xs = spread(1, (1 << 29) - 1, [1 << i for i in range(30)], 60 if quick else 600, rnd)
+    xs = spread(1, (1 << 29) - 1, [1 << i for i in range(0, 30, 3 if quick else 1)], 30 if quick else 600, rnd)
     add(op="newton", st="u64", p=30, k=6, x=xs, enc="limbs")
     add(op="newton", st="i64", p=30, k=5, x=xs, enc="limbs")
     # caller-supplied initial approximation
@@ -120,11 +120,11 @@ def build_jobs(quick, rnd):
     add(op="newton", st="u64", p=10, k=5, x=xs, w=newton_inits(10, xs, "doc"), init="doc")
 
     # ---------------- inverse square root: (0, 2^(2cap-1)), below 2^21
-    for cap, ks in ((4, range(0, 8)), (6, range(0, 7 if quick else 8))):
+    for cap, ks in ((4, range(0, 8)), (6, (2, 5) if quick else range(0, 8))):
         for k in ks:
             for st in (("u64", "i64") if cap == 4 or k == 5 else ("u64",)):
                 add(op="isqrt", st=st, p=cap, k=k, xr=[1, (1 << (2 * cap - 1)) - 1])
-    for cap, k, n in ((8, 5, 1200), (10, 5, 1500), (10, 4, 300), (12, 6, 300)):
+    for cap, k, n in ((8, 5, 600), (10, 5, 1000), (10, 4, 200), (12, 6, 200)):
         top = min((1 << (2 * cap - 1)), 1 << 21) - 1
         if not quick and cap == 8:
             add(op="isqrt", st="u64", p=cap, k=k, xr=[1, top])
@@ -135,6 +135,7 @@ def build_jobs(quick, rnd):
     xs = spread(1, (1 << 21) - 1, [4 ** j for j in range(11)], 40 if quick else 400, rnd)
     add(op="isqrt", st="u64", p=16, k=6, x=xs, enc="limbs")
     add(op="isqrt", st="i64", p=20, k=7, x=xs, enc="limbs")
+    add(op="isqrt", st="u64", p=31, k=7, x=xs[:: 2], enc="limbs")      # the largest cap the operation accepts
     for cap, ks in ((6, (3, 5)), (4, (0, 2))):
         xs = list(range(1, 1 << (2 * cap - 1), 1 if cap == 4 or not quick else 3))
         for k in ks:
@@ -145,14 +146,14 @@ def build_jobs(quick, rnd):
     for k in range(1, 8):
         for st in ("u64", "i64"):
             add(op="gold", st=st, p=5, k=k, xr=[1, 15], nr=[1, 15], cart=1)
-    for k in ((1, 3, 5, 7) if quick else range(1, 8)):
+    for k in ((5,) if quick else range(1, 8)):
         add(op="gold", st="u64", p=7, k=k, xr=[1, 63], nr=[1, 63], cart=1)
-    ns = spread(1, 511, [1, 2, 255, 256, 511], 4 if quick else 60, rnd)
+    ns = spread(1, 511, [511], 2 if quick else 60, rnd)
     for k in ((5,) if quick else (4, 5, 6)):
         add(op="gold", st="i64", p=10, k=k, xr=[1, 511], n=ns, cart=1)
     for st, cap, k in (("u64", 20, 5), ("u128", 30, 5), ("i128", 30, 7), ("u128", 20, 6)):
         m = (1 << (cap - 1)) - 1
-        ds = spread(1, m, [1 << i for i in range(cap - 1)], 15 if quick else 150, rnd)
+        ds = spread(1, m, [1 << i for i in range(0, cap - 1, 4 if quick else 1)], 10 if quick else 150, rnd)
         add(op="gold", st=st, p=cap, k=k, x=ds, n=[rnd.randint(1, m) for _ in ds], enc="limbs")
     xs = list(range(1, 64))
     for which in ("lo", "hi"):
@@ -160,7 +161,7 @@ def build_jobs(quick, rnd):
             w=[w for w in newton_inits(7, xs, which) for _ in (0, 1, 2)], init=which)
 
     # ---------------- FixedMultiply
-    add(op="fixmul", p=4, xr=[-40, 81], nr=[-40, 81], cart=1)
+    add(op="fixmul", p=4, xr=[-20, 41], nr=[-20, 41], cart=1)
     for p in (0, 8, 10, 15):
         xs = [rnd.randint(-(1 << 15), 1 << 15) for _ in range(300 if quick else 3000)]
         add(op="fixmul", p=p, x=xs, n=[rnd.randint(-(1 << 15), 1 << 15) for _ in xs])
@@ -171,29 +172,28 @@ def build_jobs(quick, rnd):
     for op in ("sigmoid", "gelu"):
         left = PWL_LEFT[op]
         for p in ((4, 6) if quick else (4, 6, 8)):
-            for lb in (4, 5, 6):
+            for lb in ((4, 5, 6) if not quick or p == 4 else (5,)):
                 hi = (-2 * left if op == "sigmoid" else -left) << p
                 add(op=op, p=p, lb=lb, xr=[(2 * left) << p, hi - ((2 * left) << p) + 1])
         if quick:
-            hi = (-2 * left if op == "sigmoid" else -left) << 8
-            add(op=op, p=8, lb=5, xr=[(2 * left) << 8, hi - ((2 * left) << 8) + 1])
+            add(op=op, p=8, lb=5, x=pwl_points(op, 8, 5, rnd, 600))
         for p, lb, n in ((10, 4, 150), (10, 5, 400), (10, 6, 150), (12, 6, 200)):
             add(op=op, p=p, lb=lb, x=pwl_points(op, p, lb, rnd, n if quick else 10 * n))
-        for lb in (5, 6):
-            add(op=op, p=15, lb=lb, x=pwl_points(op, 15, lb, rnd, 60 if quick else 600), enc="limbs")
-    for p in ((4, 6) if quick else (4, 6, 8)):
+        for lb in ((5,) if quick else (5, 6)):
+            add(op=op, p=15, lb=lb, x=pwl_points(op, 15, lb, rnd, 20 if quick else 600)[:: 2 if quick else 1], enc="limbs")
+    for p in ((4,) if quick else (4, 6, 8)):
         add(op="exp", p=p, lb=6, xr=[-32 << p, (48 << p) + 1], enc="limbs")
-    for p, n in ((10, 120), (15, 120)):
-        add(op="exp", p=p, lb=6, x=pwl_points("exp", p, 6, rnd, n if quick else 10 * n), enc="limbs")
+    for p, n in ((6, 40), (10, 40), (15, 40)):
+        add(op="exp", p=p, lb=6, x=pwl_points("exp", p, 6, rnd, n if quick else 25 * n)[:: 3 if quick else 1], enc="limbs")
 
     # ---------------- Taylor exponent: [-20, (29 - p) ln 2)
     for p in (4, 6):
-        for k in (2, 3, 4, 5, 7):
+        for k in ((2, 3, 4, 5, 7) if not quick or p == 4 else (3, 5)):
             add(op="taylor", p=p, k=k, xr=[-20 << p, taylor_hi(p) + (20 << p) + 1])
-    for p, ks in ((8, (5,) if quick else (3, 4, 5, 7)), (10, () if quick else (5,))):
+    for p, ks in ((8, () if quick else (3, 4, 5, 7)), (10, () if quick else (5,))):
         for k in ks:
             add(op="taylor", p=p, k=k, xr=[-20 << p, taylor_hi(p) + (20 << p) + 1])
-    for p, ks, n in ((10, (3, 4, 5, 8), 900), (12, (4, 5), 500), (15, (3, 5, 6), 500)):
+    for p, ks, n in ((8, (4, 5), 900), (10, (3, 4, 5, 8), 900), (12, (4, 5), 500), (15, (3, 5, 6), 500)):
         cut = int(-10 * math.log(2) * (1 << p))
         sp = [0, cut, -10 << p, -7 << p, -8 << p, -9 << p] + [int(i * math.log(2) * (1 << p)) for i in range(-14, 29 - p)]
         for k in ks:
@@ -433,8 +433,8 @@ def run(chk):
     lib.write_ndjson(chk.path("jobs.ndjson"), jobs)
 
     # ---- design models (TLC) run while the harness evaluates the sweeps
-    design = [("newton", {"MINCAP": 2, "MAXCAP": 10 if quick else 12}), ("isqrt", {"MAXCAPSQ": 6 if quick else 8}),
-              ("gold", {"MAXCAPG": 6 if quick else 8}), ("pwl", {"MAXCFG": 4 if quick else 6})]
+    design = [("newton", {"MINCAP": 2, "MAXCAP": 9 if quick else 12}), ("isqrt", {"MAXCAPSQ": 5 if quick else 8}),
+              ("gold", {"MAXCAPG": 6 if quick else 8}), ("pwl", {"MAXCFG": 3 if quick else 6})]
 
     def design_run(d):
         return d[0], lib.tlc("ApproxAlg", "MC_ApproxAlg_%s.cfg" % d[0], env=d[1], workers=workers(2), timeout=900 if quick else 5000, coverage=False)
@@ -449,10 +449,10 @@ def run(chk):
             if not res.ok:
                 chk.violation({"level": "design", "model": name, "invariant": res.violated},
                               {"counterexamples": lib.printed_json(res, "DESIGN")[:3], "tlc": res.trace[-3000:]})
-    chk.note("design", {"newton": "cap 2..%d, every d in (0, 2^(cap-1)), k 0..7, built-in guess and every initial approximation with |1 - d w / 2^cap| <= 1/2" % (10 if quick else 12),
-                        "inverse_sqrt": "cap 2..%d, every d in (0, 2^(2cap-1)), k 0..7, built-in guess and every documented initial approximation" % (6 if quick else 8),
+    chk.note("design", {"newton": "cap 2..%d, every d in (0, 2^(cap-1)), k 0..7, built-in guess and every initial approximation with |1 - d w / 2^cap| <= 1/2" % (9 if quick else 12),
+                        "inverse_sqrt": "cap 2..%d, every d in (0, 2^(2cap-1)), k 0..7, built-in guess and every documented initial approximation" % (5 if quick else 8),
                         "goldschmidt": "cap 2..%d, every (n, d), k 1..7, built-in guess and both ends of the judged initial approximations" % (6 if quick else 8),
-                        "piecewise_linear": "%d configurations, EVERY word of a 14- or 16-bit two's complement type: bit-level selection = integer selection, containing segment at every boundary / both clamps, floor+{0,1} selection, multiplexer tree, chord bound for x*x, flattened sides" % (4 if quick else 6)})
+                        "piecewise_linear": "%d configurations, EVERY word of a 14- or 16-bit two's complement type: bit-level selection = integer selection, containing segment at every boundary / both clamps, floor+{0,1} selection, multiplexer tree, chord bound for x*x, flattened sides" % (3 if quick else 6)})
 
     # ---- TLC judges every record
     bad, stats = judge(chk, recs, tabs, 4, workers(2), 1500 if quick else 6000)
